@@ -143,6 +143,56 @@ func corpus() []entry {
 	return out
 }
 
+// sizeFamily: nesting depths 21 / 25 / 60 (balanced and left open), names and
+// alignment columns of 39 / 41 / 45 / 90 / 130 characters, long literals and
+// long sequences, in the native syntax and in JSON. kind is a label.
+func sizeFamily() []entry {
+	var out []entry
+	add := func(label, src string) { out = append(out, entry{label, src}) }
+	for _, d := range []int{21, 25, 60} {
+		var open, close string
+		for i := 0; i < d; i++ {
+			open += strings.Repeat("  ", i) + "b {\n"
+			close = strings.Repeat("  ", i) + "}\n" + close
+		}
+		inner := strings.Repeat("  ", d) + "a = 1 # c\n" + strings.Repeat("  ", d) + "bbb = 2 # d\n"
+		add(fmt.Sprintf("blocks-depth-%d", d), open+inner+close)
+		add(fmt.Sprintf("blocks-depth-%d-open", d), open+inner)
+		add(fmt.Sprintf("blocks-depth-%d-unindented", d), strings.Repeat("b {\n", d)+"a = 1\n"+strings.Repeat("}\n", d))
+		add(fmt.Sprintf("brackets-depth-%d", d), "a = "+strings.Repeat("[", d)+"1"+strings.Repeat("]", d)+"\n")
+		add(fmt.Sprintf("brackets-depth-%d-open", d), "a = "+strings.Repeat("[", d)+"1\n")
+		add(fmt.Sprintf("brackets-depth-%d-lines", d), "a = "+strings.Repeat("[\n", d)+"1\n"+strings.Repeat("]\n", d))
+		add(fmt.Sprintf("parens-depth-%d", d), "a = "+strings.Repeat("(", d)+"b"+strings.Repeat(")", d)+"\n")
+		add(fmt.Sprintf("objects-depth-%d", d), "a = "+strings.Repeat("{ k = ", d)+"1"+strings.Repeat(" }", d)+"\n")
+		add(fmt.Sprintf("interp-depth-%d", d), "a = "+strings.Repeat("\"${", d)+"b"+strings.Repeat("}\"", d)+"\n")
+		add(fmt.Sprintf("json-depth-%d", d), strings.Repeat(`{"b":`, d)+`{"a":"${b}"}`+strings.Repeat("}", d))
+		add(fmt.Sprintf("json-array-depth-%d", d), `{"a":`+strings.Repeat("[", d)+`1`+strings.Repeat("]", d)+"}")
+	}
+	for _, n := range []int{39, 41, 45, 90, 130} {
+		name := strings.Repeat("n", n)
+		add(fmt.Sprintf("align-%d", n), name+" = 1 // c\nx = 2 # d\nb {\n  "+name+" = a\n  y = 1 /* e */\n}\n")
+		add(fmt.Sprintf("label-%d", n), "b1 \""+name+"\" {\n}\nb2 "+name+" \"x\" {\n}\n")
+		add(fmt.Sprintf("spaces-%d", n), "a"+strings.Repeat(" ", n)+"="+strings.Repeat(" ", n)+"1"+strings.Repeat(" ", n)+"# c\n")
+		add(fmt.Sprintf("traversal-%d", n), "a = o"+strings.Repeat(".f", n)+"\n")
+		add(fmt.Sprintf("index-chain-%d", n), "a = l"+strings.Repeat("[0]", n)+"\n")
+	}
+	add("string-2000", "a = \""+strings.Repeat("x", 2000)+"\"\n")
+	add("heredoc-500-lines", "a = <<EOT\n"+strings.Repeat("line ${b}\n", 500)+"EOT\n")
+	add("list-500", "a = ["+strings.Repeat("1, ", 500)+"]\n")
+	add("attrs-300", strings.Repeat("a = 1\n", 1)+func() string {
+		var sb strings.Builder
+		for i := 0; i < 300; i++ {
+			fmt.Fprintf(&sb, "k%d = %d\n", i, i)
+		}
+		return sb.String()
+	}())
+	add("binary-chain-300", "a = 1"+strings.Repeat(" + b", 300)+"\n")
+	add("unary-chain-300", "a = "+strings.Repeat("!", 300)+"c\n")
+	add("json-array-500", `{"a":[`+strings.Repeat("1,", 499)+`1]}`)
+	add("json-string-2000", `{"a":"`+strings.Repeat("x", 2000)+`"}`)
+	return out
+}
+
 // invalidCorpusEntries lists corpus entries that their own front end does not
 // accept (must be empty: the corpus is meant to be valid text).
 func invalidCorpusEntries() []string {
@@ -284,6 +334,13 @@ func gen(tier string, emit func(engine.Case) bool) {
 	ents := corpus()
 	for i, e := range ents {
 		if !emit(mk(fmt.Sprintf("k%d", i), []byte(e.src), "corpus:"+e.kind)) {
+			return
+		}
+	}
+	// (d) size family: the same constructs at sizes beyond every fixed-size
+	// buffer and small-count assumption of the front ends (unchanged, no edits)
+	for _, e := range sizeFamily() {
+		if !emit(mk("size:"+e.kind, []byte(e.src), "size:"+e.kind)) {
 			return
 		}
 	}
